@@ -19,10 +19,10 @@ FALLBACK_DEFS = ['-DPACKAGE_NAME="radsecproxy"', '-DPACKAGE_TARNAME="radsecproxy
                  '-DHAVE_LIBNETTLE=1', '-DHAVE_LIBRESOLV=1']
 
 # repo files compiled as they are
-PLAIN = ["dns", "dtls", "fticks", "fticks_hashmac", "gconfig", "hash", "list",
+PLAIN = ["dtls", "fticks", "fticks_hashmac", "gconfig", "hash", "list",
          "radmsg", "tcp", "tls", "tlv11", "util"]
 # repo files compiled through a harness TU that #includes them textually
-WRAPPED = {"radsecproxy": "h_rsp", "tlscommon": "h_tls", "debug": "h_debug", "hostport": "h_hostport", "rewrite": "h_rewrite", "udp": "h_udp"}
+WRAPPED = {"radsecproxy": "h_rsp", "tlscommon": "h_tls", "debug": "h_debug", "hostport": "h_hostport", "rewrite": "h_rewrite", "udp": "h_udp", "dns": "h_dns"}
 EXTRA = ["h_main", "h_misc", "h_world"]
 
 
